@@ -3252,3 +3252,28 @@ package connect
 //@   assigns everything
 //@   ensures err == nil ==> ended(conn)                                  // label: nil-only-when-the-request-stream-has-ended
 //@   ensures err != nil ==> coded(err) || err == callres("StreamingHandlerConn.Receive", 1)
+
+// The remaining small closures and markers (round 12): what the pool's New,
+// the gzip constructors and the no-op closures do.
+//@ func newBufferPool$1() res
+//@   tags C01, C09
+//@   assigns everything
+//@   ensures typeis(res, "*bytes.Buffer") && cast(res, "*bytes.Buffer") != nil && |view(cast(res, "*bytes.Buffer"))| == 0   // label: the-pool-makes-empty-buffers
+//@ func withGzip$1() res
+//@   tags C08
+//@   assigns everything
+//@   ensures res != nil   // label: the-gzip-pool-makes-a-decompressor
+//@ func newDuplexHTTPCall$1()
+//@   tags C15
+//@   assigns nothing
+//@ func (*Request).internalOnly(r)
+//@   tags C01
+//@   assigns nothing
+//@ func (*Response).internalOnly(r)
+//@   tags C01
+//@   assigns nothing
+//@ func (*grpcHandlerConn).Close$1()
+//@   tags C02, C05
+//@   requires deref(hc) != nil && deref(hc).request != nil && deref(hc).request.Body != nil
+//@   assigns everything
+//@   ensures old(deref(retErr)) != nil ==> deref(retErr) == old(deref(retErr))   // label: closing-the-request-body-never-replaces-the-handler's-error
